@@ -9,7 +9,7 @@ breaks (or re-validates) the proof obligations that mention it on the next `lake
 import importlib, os, sys
 
 VERIF = os.path.dirname(os.path.dirname(os.path.abspath(__file__)))
-REPO = "/repo"
+REPO = os.environ.get("VERIF_REPO", "/repo")
 GEN = os.path.join(VERIF, "lean", "OrdModel", "Generated")
 
 
